@@ -1,6 +1,9 @@
 """C11 — timestamp differences convert to picoseconds exactly."""
 from vp import Stream
 
+DRV = "time"
+CRATE = "hx"
+
 RULE = ("tsc: (a,b,f) drawn from boundary values {0,1,2^32+-1,2^63+-1,2^64-1} and random 64-bit values, "
         "f from {1..10^10 boundaries, random}; dur: Durations over boundary secs/nanos; prec: Timer::measure_precision "
         "under the virtual clock stepping `step` ticks per read at frequency f. Non-trivial = b >= a and result > 0 "
@@ -64,3 +67,9 @@ def streams(tier, rng):
         Stream("precision-uniform-clock", "prec", prec),
         Stream("tsc-conversion-release", "tsc", tsc[: len(tsc) // 3], nontrivial=nt_tsc, release=True),
     ]
+
+MANIFEST = {
+    "text": "Coq theorems over all of u64 x u64 x (u64 minus 0): the conversion model returns exactly the floor, never overflows its 128-bit intermediate, is monotone, additive up to 1 ps, shift invariant; Duration conversion exact and panic-free; measure_precision on any uniform stream of length >= 101 returns the step. The model is tied to the code by differential execution on boundary-dense inputs (debug and release) and by the generated PICOS constant.",
+    "note": "Trusted: Coq kernel, extraction (ExtrOcamlBasic), OCaml driver, hooks H1-H3, hand-written model validated by the correspondence stream; rdtsc/cntvct assembly, frequency probing and Instant are outside the model.",
+    "technique": "machine-checked proof in Coq (lia/nia over N) + differential correspondence against the real crate",
+}
